@@ -44,7 +44,7 @@ func (p Precompile) RegisterAVS(
 	}
 	// verification of the calling address to ensure it is avs contract owner
 	if !slices.Contains(avsParams.AvsOwnerAddress, avsParams.CallerAddress) {
-		return nil, errorsmod.Wrap(err, "not qualified to registerOrDeregister")
+		return nil, errorsmod.Wrap(avstypes.ErrCallerAddressUnauthorized, "not qualified to registerOrDeregister")
 	}
 	// The AVS registration is done by the calling contract.
 	avsParams.AvsAddress = contract.CallerAddress.String()
